@@ -76,7 +76,7 @@ ArrayLength(c) ==
 
 CompactArrayLength(c) ==
   LET W == UvarW(c) IN
-  IF H < W THEN Insuf("0") ELSE
+  IF H < W THEN Insuf(CStr(c, 0)) ELSE
   LET R == H - W  l == CNum(c, R)  v == IF c = "null" THEN 0 ELSE l  s == CStr(c, R) IN
   IF Fixed /\ v < -1 THEN Inval(off + W, s)
   ELSE IF Fixed /\ v > R THEN Insuf(s)
@@ -91,7 +91,7 @@ String16(c) ==
 
 CompactString(c, nullable) ==
   LET W == UvarW(c) IN
-  IF H < W THEN Insuf("0") ELSE
+  IF H < W THEN Insuf(CStr(c, 0)) ELSE
   LET R == H - W  l == CNum(c, R)  s == CStr(c, R) IN
   IF nullable /\ l < 0 THEN Ok(off + W, s)                   \* "if length < 0 { return nil, err }": 2^64-1 reads as null
   ELSE IF l < 0 THEN (IF Fixed THEN Inval(off + W, s) ELSE Panic(off + W, s))       \* raw[off : off-1]
@@ -107,7 +107,7 @@ Bytes32(c) ==
 
 VarintBytes(c) ==
   LET W == VarW(c) IN
-  IF H < W THEN Insuf("0") ELSE
+  IF H < W THEN Insuf(SStr(c, 0, "2147483647")) ELSE
   IF c = "ovf" THEN Out("overflow", off + 10, "-", "0", {}) ELSE
   LET R == H - W  v == SNum(c, R)  s == SStr(c, R, "2147483647") IN
   IF v = -1 THEN Ok(off + W, s)
@@ -116,7 +116,7 @@ VarintBytes(c) ==
 
 CompactBytes(c) ==
   LET W == UvarW(c) IN
-  IF H < W THEN Insuf("0") ELSE
+  IF H < W THEN Insuf(CStr(c, 0)) ELSE
   LET R == H - W  l == CNum(c, R)  s == CStr(c, R) IN
   IF l < 0 THEN Inval(off + W, s)
   ELSE IF l > R THEN Insuf(s) ELSE Ok(off + W + l, s)
@@ -142,7 +142,7 @@ StringArray(c) ==          \* n strings; the zero payload makes each of them an 
 
 CompactInt32Array(c) ==
   LET W == UvarW(c) IN
-  IF H < W THEN Insuf("0") ELSE
+  IF H < W THEN Insuf(CStr(c, 0)) ELSE
   LET R == H - W  k == R \div 4
       l == CASE c = "null" -> -1 [] c = "z" -> 0 [] c = "rem" -> k [] c = "rem1" -> k + 1 [] c = "wrap" -> -2 [] OTHER -> BIG
       s == CASE c = "rem" -> ToString(k + 1) [] c = "rem1" -> ToString(k + 2) [] OTHER -> CStr(c, R) IN
@@ -156,13 +156,13 @@ CompactInt32Array(c) ==
 
 Varint(c) ==
   LET W == VarW(c) IN
-  IF H < W THEN Insuf("0")
+  IF H < W THEN Insuf(SStr(c, 0, "2147483647"))
   ELSE IF c = "ovf" THEN Out("overflow", off + 10, "-", "0", {})
   ELSE Ok(off + W, SStr(c, 0, "2147483647"))
 
 UVarint(c) ==
   LET W == UvarW(c) IN
-  IF H < W THEN Insuf("0")
+  IF H < W THEN Insuf(CStr(c, 0))
   ELSE IF c = "ovf" THEN Out("overflow", off + 10, "-", "0", {})
   ELSE Ok(off + W, CStr(c, 0))
 
@@ -184,7 +184,7 @@ PushLen(c) ==              \* lengthField is a dynamic push decoder: the length 
 PushCrc == IF H < 4 THEN Insuf("0") ELSE [Ok(off + 4, "0") EXCEPT !.push = <<[k |-> "crc", start |-> off, v |-> 0, w |-> 4]>>]
 PushVarLen(c) ==
   LET W == VarW(c) IN
-  IF H < W THEN Insuf("0")
+  IF H < W THEN Insuf(SStr(c, 0, "2147483647"))
   ELSE IF c = "ovf" THEN Out("overflow", off + 10, "-", "0", {})
   ELSE LET v == SNum(c, 0) IN [Ok(off + W, SStr(c, 0, "2147483647")) EXCEPT !.push = <<[k |-> "var", start |-> off, v |-> v, w |-> W]>>]
 Pop(c) ==
@@ -266,5 +266,4 @@ LengthsWithinRemainder == \A i \in 1..Len(prog) : prog[i].retc \in {"-", "null",
 
 Terminal == st # "run" \/ Len(prog) = MaxOps
 EmitInv == (Emit /\ Terminal /\ prog # <<>>) => PrintT(<<"CASE", ToJson([len |-> len, steps |-> prog])>>)
-BreachInv == (Terminal /\ breach # {}) => PrintT(<<"BREACH", ToJson(breach)>>)
 =============================================================================
